@@ -356,8 +356,12 @@ func genStruct(t *rapid.T, cfg GenConfig, depth int) *Type {
 				f.Name = f.Name[:2] + strings.ToUpper(f.Name[2:])
 			}
 		case "json": // exact match in JSON bodies, case-insensitive in configuration
-			if rapid.IntRange(0, 3).Draw(t, "upper") == 0 {
+			f.Name += "q" // two letters, so that a mixed-case spelling exists
+			switch rapid.IntRange(0, 5).Draw(t, "upper") {
+			case 0:
 				f.Name = strings.ToUpper(f.Name)
+			case 1:
+				f.Name = strings.ToUpper(f.Name[:1]) + f.Name[1:]
 			}
 		}
 		f.T = genFieldType(t, cfg, key, depth)
@@ -449,7 +453,7 @@ func genJSONShape(t *rapid.T, cfg GenConfig, depth int) *Type {
 		}
 		return drawKind(t)
 	}
-	switch rapid.IntRange(0, 27).Draw(t, "shape") {
+	switch rapid.IntRange(0, 31).Draw(t, "shape") {
 	case 0, 1, 2, 3, 4, 5, 6, 7:
 		return drawKind(t)
 	case 8, 9:
@@ -492,9 +496,94 @@ func genJSONShape(t *rapid.T, cfg GenConfig, depth int) *Type {
 	case 25, 26: // D9c
 		return rapid.SampledFrom([]*Type{ptr(slice(leaf())), ptr(ptr(slice(drawKind(t)))),
 			slice(ptr(slice(drawKind(t)))), mapOf(ptr(slice(drawKind(t))))}).Draw(t, "d9c")
-	default:
+	case 27:
 		return slice(mapOf(drawKind(t)))
+	default: // 28..31: a struct behind 2-3 nested container levels, slices and maps mixed
+		if depth > 0 {
+			return slice(leaf())
+		}
+		levels := rapid.IntRange(2, 3).Draw(t, "levels")
+		ty := genStruct(t, cfg, 2)
+		if rapid.IntRange(0, 3).Draw(t, "ptrleaf") == 0 {
+			ty = ptr(ty)
+		}
+		for i := 0; i < levels; i++ {
+			if rapid.IntRange(0, 2).Draw(t, "level") == 0 {
+				ty = mapOf(ty)
+			} else {
+				ty = slice(ty)
+			}
+		}
+		return ty
 	}
+}
+
+// StructNesting returns the largest number of consecutive container levels (slices,
+// maps) through which some struct of the spec is reached (0: only direct/nested
+// struct fields; -1: no struct below the top).
+func (t *Type) StructNesting() int {
+	best := -1
+	var walk func(ty *Type, levels int)
+	walk = func(ty *Type, levels int) {
+		switch ty.Kind {
+		case reflect.Ptr:
+			walk(ty.Elem, levels)
+		case reflect.Slice, reflect.Map:
+			walk(ty.Elem, levels+1)
+		case reflect.Struct:
+			if levels > best {
+				best = levels
+			}
+			for _, f := range ty.Fields {
+				walk(f.T, 0)
+			}
+		}
+	}
+	for _, f := range t.Fields {
+		walk(f.T, 0)
+	}
+	return best
+}
+
+// ReachedNesting is StructNesting evaluated on a document: the largest number of
+// consecutive container levels through which an object for a struct is actually
+// supplied.
+func ReachedNesting(spec *Type, doc map[string]any) int {
+	best := -1
+	var walk func(ty *Type, v any, levels int)
+	walk = func(ty *Type, v any, levels int) {
+		d := ty.Deref()
+		switch vv := v.(type) {
+		case map[string]any:
+			switch d.Kind {
+			case reflect.Struct:
+				if levels > best {
+					best = levels
+				}
+				for _, f := range d.Fields {
+					if fv, ok := vv[f.Name]; ok {
+						walk(f.T, fv, 0)
+					}
+				}
+			case reflect.Map:
+				for _, e := range vv {
+					walk(d.Elem, e, levels+1)
+				}
+			}
+		case []any:
+			if d.Kind == reflect.Slice {
+				for _, e := range vv {
+					walk(d.Elem, e, levels+1)
+				}
+			}
+		}
+	}
+	for _, f := range spec.Fields {
+		if fv, ok := doc[f.Name]; ok {
+			walk(f.T, fv, 0)
+		}
+	}
+	return best
 }
 
 var (
@@ -1361,7 +1450,8 @@ func RecaseDoc(spec *Type, doc map[string]any, recase func(string) string) map[s
 		byName[f.Name] = f
 	}
 	out := map[string]any{}
-	for k, v := range doc {
+	for _, k := range sortedKeys(doc) { // sorted: recase may count its calls
+		v := doc[k]
 		f := byName[k]
 		if f == nil {
 			out[k] = deepCopy(v)
@@ -1381,8 +1471,8 @@ func recaseValue(ty *Type, v any, recase func(string) string) any {
 			return RecaseDoc(d, vv, recase)
 		case reflect.Map:
 			out := map[string]any{}
-			for k, e := range vv {
-				out[k] = recaseValue(d.Elem, e, recase)
+			for _, k := range sortedKeys(vv) {
+				out[k] = recaseValue(d.Elem, vv[k], recase)
 			}
 			return out
 		}
